@@ -130,7 +130,7 @@ def enrich(prog, rng, max_in=3, max_inputs=10, max_choices=4, dstcap=3):
         for i, n in prog.walk_stmts(f["z"]):
             if n["k"] == "Var":
                 k, ln = prog.tykind(n["l"])
-                if k not in ("num", "status", "arr"):
+                if k not in ("num", "status", "arr", "slice"):
                     return None, "local kind " + k
                 if k == "arr" and (ln > 16 or ln <= 0 or prog.tykind(prog.nd(n["l"])["r"])[0] != "num"):
                     return None, "local array shape"
@@ -154,7 +154,18 @@ def enrich(prog, rng, max_in=3, max_inputs=10, max_choices=4, dstcap=3):
                 cands.append(c)
             seen = set()
             tries = 0
-            while len(choices) < max_choices and tries < 50:
+            # aliasing needs equal arguments: always offer one combination where every numeric argument has the same value
+            nums = [c for p, c in zip(params, cands) if p["kind"] == "num"]
+            if len(nums) >= 2:
+                common = set(nums[0])
+                for c in nums[1:]:
+                    common &= set(c)
+                if common:
+                    v = rng.choice(sorted(common))
+                    combo = tuple(v if p["kind"] == "num" else 0 for p in params)
+                    seen.add(combo)
+                    choices.append([{"n": p["n"], "v": x} for p, x in zip(params, combo)])
+            while len(choices) < max_choices + (1 if len(nums) >= 2 else 0) and tries < 50:
                 tries += 1
                 combo = tuple(rng.choice(c) for c in cands)
                 if combo in seen:
